@@ -74,7 +74,11 @@ func genComponentFile(c *core.Ctx, idx int) (compDef, []model.Stmt) {
 		stmts = append(stmts, model.Assign{Name: "sv", E: model.Lit{V: model.Int(0)}})
 	}
 	for _, s := range def.slots {
-		stmts = append(stmts, model.Text{S: " [" + s + ":"}, model.SlotRef{Name: s}, model.Text{S: "]"})
+		after := "]"
+		if s == "" && r.Intn(3) == 0 {
+			after = " (optional)]" // text after a default placeholder, not a slot name
+		}
+		stmts = append(stmts, model.Text{S: " [" + s + ":"}, model.SlotRef{Name: s}, model.Text{S: after})
 		if def.slotVar {
 			stmts = append(stmts, model.Text{S: "sv="}, model.Print{E: model.Var{Name: "sv"}})
 		}
@@ -143,6 +147,10 @@ func (cc *compCase) genUse(c *core.Ctx, def compDef, scopeVar string, forceNoSlo
 				continue
 			}
 			body := []model.Stmt{model.Text{S: fmt.Sprintf("body%d.%s", site, s)}}
+			if r.Intn(4) == 0 {
+				// a body that begins with a blank and a parenthesis is still the body of this slot
+				body = []model.Stmt{model.Text{S: fmt.Sprintf(" (see body%d.%s)", site, s)}}
+			}
 			if scopeVar != "" && r.Intn(2) == 0 {
 				body = append(body, model.Text{S: "~"}, model.Print{E: model.Var{Name: scopeVar}})
 			}
@@ -185,11 +193,15 @@ func genComponentTree(c *core.Ctx, i int) *compCase {
 			if u > 0 && r.Intn(2) == 0 {
 				def = cc.comps[0] // the same component several times
 			}
-			switch r.Intn(5) {
+			switch r.Intn(6) {
 			case 0: // inside @if
 				stmts = append(stmts, model.If{Conds: []model.Expr{model.Lit{V: model.Bool(true)}}, Bodies: [][]model.Stmt{{model.Text{S: "(if "}, cc.genUse(c, def, "", false), model.Text{S: ")"}}}})
 			case 1: // inside @each, arguments per pass
 				stmts = append(stmts, model.Each{Var: "item", Arr: model.Var{Name: "da"}, Body: []model.Stmt{model.Text{S: "(each "}, cc.genUse(c, def, "item", false), model.Text{S: ")"}}})
+			case 3: // inside the @else of a @for that makes no pass: the init variable is visible there
+				stmts = append(stmts, model.For{Init: &model.Assign{Name: "fi", E: model.Lit{V: model.Int(int64(7 + u))}}, Cond: model.Binary{Op: "<", L: model.Var{Name: "fi"}, R: model.Lit{V: model.Int(3)}},
+					Post: model.Print{E: model.Postfix{Op: "++", X: model.Var{Name: "fi"}}}, Body: []model.Stmt{model.Text{S: "never"}},
+					Else: []model.Stmt{model.Text{S: "(for-else "}, cc.genUse(c, def, "fi", false), model.Text{S: ")"}}})
 			case 2: // a use without slots (also after a use with slots), followed by any text incl. whitespace only
 				stmts = append(stmts, cc.genUse(c, def, "", true), model.Text{S: []string{"|", "\n", "  ", "\n\t", " x"}[r.Intn(5)]})
 			default:
@@ -331,9 +343,13 @@ func init() {
 							cc.tree.files[def.name] = append(cc.tree.files[def.name], model.SlotRef{Name: ""}, model.Text{S: "."})
 						}
 						bad = model.Component{Name: def.name, Slots: []model.SlotBody{{Name: "", Body: []model.Stmt{model.Text{S: "one"}}}, {Name: "extra", Body: []model.Stmt{model.Text{S: "e"}}}, {Name: "", Body: []model.Stmt{model.Text{S: "two"}}}}}
-					case 3: // the component file does not exist
+					case 3: // the component file does not exist: no such name, or the name of an existing one with a slash or a dot too many
 						short = "ghost"
 						bad = model.Component{Name: "components/ghost"}
+						if k := (i / 10) % 4; k > 0 {
+							short = def.name[strings.LastIndex(def.name, "/")+1:]
+							bad = model.Component{Name: def.name + []string{"", "/", "//", "/."}[k]}
+						}
 					case 4: // default slot passed to a component that declares none
 						if contains(def.slots, "") {
 							return
